@@ -46,6 +46,9 @@ def sig_of(v, script):
             qual = "empty-name-and-description" if not obj.get("name") and not obj.get("desc") else "other"
         else:
             qual = "-"
+        if cls.startswith("decode-panic"):
+            m = str(d.get("msg", ""))
+            qual += ":slice-bounds" if "slice bounds out of range" in m else ":index" if "index out of range" in m else ":other"
     elif kind == "nald":
         m = max([37 + len(a.get("title", [])) + len(a.get("poster", [])) for a in obj.get("arts", [])] or [0])
         qual = "entry>512" if m > 512 else "entry<=512"
